@@ -13,10 +13,14 @@ refuted      : coq/refuted/R_C14.v: the unrestricted statement fails for the unc
                declared call-state type of the method is only checked on the miss path.  Each witness is replayed on
                the real app below (ctx.violation keys: see KEYS).
 regenerated  : translate/t_c14_cache.py -> gen/G_CallCache.v: the cache key expression and the anonymous identity of
-               _CallStateCache._identity, the guards of get/put (expiry comparison, eviction loop), the order
-               cursor-open -> get -> (miss: resolve + put) of _unpack_and_recover_state, the expiry base of the
-               miss-path put, the warm-up put of /init, and the cache constructor arguments of _HttpRpcApp.
-               tie/T_CallCache.v proves generated = modelled.
+               _CallStateCache._identity, the guards of get/put (expiry comparison, eviction loop), the TTL guards of
+               the two open functions, the order cursor-open -> get -> (miss: resolve + put) of
+               _unpack_and_recover_state, the birth the miss path hands to put (gen_dated_miss: `now` in the unchanged
+               source, the call token's created_at under fixes/C14-miss-path-entry-expires-with-call-token.diff --
+               the model takes the flag from the source), the check order of _resolve_call_from_token, every use of
+               the cache in _app_stream.py, and the cache constructor arguments of _HttpRpcApp.
+               tie/T_CallCache.v proves generated = modelled and states what the flag means for the TTL half
+               (C14_source_ttl_verdict: theorem for dated sources, refutation for the unchanged one).
 correspondence: adaptive random + directed histories on 2-3 REAL Falcon apps (make_wsgi_app) sharing a key, capacities
                0..3, token TTL 0 / 10 s, one logical clock substituted for `time` in _state_token and _app_stream
                (the hook the property names), three stream methods, five identities (incl. the pair whose cache
@@ -80,7 +84,7 @@ KEYS = {
     "ttl": "cache-entry-recreated-on-miss-outlives-call-token-ttl",
     "type": "cache-hit-skips-declared-call-state-type-check",
 }
-HDR = "From Coq Require Import List NArith Bool.\nFrom VGI Require Import M_CallCache Corr.\nImport ListNotations.\nOpen Scope N_scope."
+HDR = "From Coq Require Import List NArith Bool.\nFrom VGI Require Import M_CallCache G_CallCache Corr.\nImport ListNotations.\nOpen Scope N_scope."
 
 
 def translate(ctx: Any) -> None:
@@ -320,7 +324,7 @@ class World:
     def coq_case(self) -> tuple[str, str]:
         from vlib.coqterm import cN, clist
 
-        inp = f"({cN(self.ttl)}, {clist(cN(c) for c in self.caps)}, {cN(self.t0q)}, {clist(self.hist)})"
+        inp = f"(gen_dated_miss, {cN(self.ttl)}, {clist(cN(c) for c in self.caps)}, {cN(self.t0q)}, {clist(self.hist)})"
         exp = self.expected + [self.sizes()]
         out = clist(clist(cN(x) for x in row) for row in exp)
         return inp, out
@@ -354,7 +358,10 @@ class Driver:
         self.arm(f"cont:{out[0]}:{out[1] if out[0] == 5 else ''}|ref:{ref[0]}:{ref[1] if ref[0] == 5 else ''}")
         if out != ref:
             served = out[0] in (3, 4)
-            if served and ref[0] == 5 and ref[1] in (5, 6, 8, 9):
+            # "expired" on the reference is the TTL class only when the presented call token is the genuine one of the
+            # cursor's stream; an expired token of another stream belongs to the first class
+            own = cur[0] == "tok" and call[0] == "tok" and call[1]["cid"] == cur[1]["cid"]
+            if served and ref[0] == 5 and (ref[1] in (5, 6, 8, 9) or (ref[1] == 7 and not own)):
                 ctx.violation(KEYS["novalid"], "a worker holding a cache entry serves a continuation whose call token is absent, malformed, "
                               "not sealed for this caller or of another stream; a worker without the entry answers 400", replay)
             elif served and ref[0] == 5 and ref[1] == 7:
@@ -440,6 +447,12 @@ class Driver:
             self.check_cont(W, 0, A, 0, ("tok", cu), ("tok", W.calls[1]), 5)          # call token of the other stream
             W.init(0, B, 0, 9, 0)
             self.check_cont(W, 0, A, 0, ("tok", cu), ("tok", W.calls[2]), 5)          # call token of another caller
+            # the same presentations on the worker that holds no entry: every arm of the miss path
+            for call in (("garbage", None), ("forged", _flip(ct["tok"])), ("forged", cu["tok"]), ("tok", W.calls[1]), ("tok", W.calls[2]), ("tok", ct)):
+                self.check_cont(W, 1, A, 0, ("tok", cu), call, 5)
+            for cur in (("none", None), ("garbage", None), ("forged", _flip(cu["tok"])), ("forged", ct["tok"]), ("tok", W.curs[-1])):
+                self.check_cont(W, 0, B, 0, cur, ("tok", ct), 5)
+            self.check_cont(W, 0, A, 0, ("tok", cu), ("tok", ct), 0)                  # cancel
         elif which == "ttl-honest":               # R_C14 witness 2: honest client, stream older than the TTL
             W.init(0, A, 0, 7, 3)
             ct = W.calls[0]
@@ -495,17 +508,19 @@ class Driver:
 def run(ctx: Any) -> None:
     translate(ctx)
     ctx.prove(
-        ["prop/P_C14.vo", "refuted/R_C14.vo", "tie/T_CallCache.vo"],
+        ["prop/P_C14.vo", "refuted/R_C14.vo"],
         {
             "P_C14": [
                 "C14_cache_sound", "C14_hit_same_identity", "C14_hit_same_caller", "C14_size_le_cap",
                 "C14_divergence_only_served_vs_call_rejection", "C14_step_transparent_partial",
                 "C14_cache_transparent_partial", "C14_any_two_cache_populations_agree_partial",
+                "C14_dated_miss_transparent_for_genuine_call_token", "C14_cold_reference_has_no_entries",
             ],
             "R_C14": ["C14_cache_transparent_refuted", "C14_transparent_refuted_honest_client_ttl", "C14_transparent_refuted_method_type"],
-            "T_CallCache": ["callcache_tie", "C14_source_size_le_cap"],
         },
     )
+    # separate build: a source whose guards / order changed breaks exactly these obligations
+    ctx.prove(["tie/T_CallCache.vo"], {"T_CallCache": ["callcache_tie", "C14_source_cache_ops", "C14_source_size_le_cap", "C14_source_ttl_verdict"]})
     quick = ctx.tier == "quick"
     rng = ctx.rng
     D = Driver(ctx)
@@ -540,7 +555,7 @@ def run(ctx: Any) -> None:
     ctx.sample({"ttl": worlds[1].ttl, "caps": worlds[1].caps, "history": worlds[1].plain, "outcomes": worlds[1].expected})
     for k, v in sorted(D.arms.items()):
         ctx.tally("arm", f"{k} x{v}")
-    ok, bad, clog = ctx.coq_mismatches(HDR, "run_case", "list_eqb (list_eqb N.eqb)", cases, "N * list N * N * list req", "list (list N)", shard=8)
+    ok, bad, clog = ctx.coq_mismatches(HDR, "run_case", "list_eqb (list_eqb N.eqb)", cases, "bool * N * list N * N * list req", "list (list N)", shard=8)
     ctx.count("model_cases", len(cases))
     ctx.obligation("correspondence:M_CallCache.run_case", "correspondence", ok and not bad, clog if not ok else f"{len(bad)} of {len(cases)} histories disagree")
     for i in bad[:3]:
